@@ -169,6 +169,16 @@ func (x *rx) check(rule, key string, pos token.Pos, w []string, detail string) {
 	x.c.Check(rule, key, pos, w == nil, detail, w...)
 }
 
+// verdict3: pass if ok; fail if the deciding branch was recognised (or is absent altogether); undecided if the
+// test exists in a form whose edges establish nothing (e.g. inside a disjunction).
+func (x *rx) verdict3(rule, key string, pos token.Pos, ok, recognised bool, detail string) {
+	if ok || recognised {
+		x.c.Check(rule, key, pos, ok, detail)
+	} else {
+		x.c.Undecidedf(rule, key, pos, "the deciding test is not in a recognised form; cannot establish: %s", detail)
+	}
+}
+
 // eleField: e is <ele>.<name> for the element variable ele of type *KeyNode.
 func (x *rx) eleField(e ast.Expr, ele types.Object, name string) bool {
 	sel, ok := c07.Strip(x.info, e).(*ast.SelectorExpr)
@@ -296,6 +306,9 @@ func (x *rx) chain() {
 	_, w := c07.MustPass(g, g.Entry(), false, closeKey)
 	x.check("R1.close", "fetcher/keyChan", x.fn["fetcher"].Decl.Pos(), w, "fetcher must close keyChan on every return: otherwise writer, receiver and exec wait forever and the run never terminates after the last cursor")
 	for _, p := range g.Points(closeKey) {
+		if _, deferred := p.Node().(*ast.DeferStmt); deferred {
+			continue // runs at exit, after the last doFetch
+		}
 		w := g.Path(cfgq.Query{From: p, After: true, Target: x.callNode(x.fn["doFetch"].Obj)})
 		x.check("R1.close-last", "fetcher/keyChan", p.Node().Pos(), w, "keyChan is closed while databases are still to be fetched: the next key is sent on a closed channel (panic) and the remaining databases are not copied")
 	}
@@ -313,9 +326,12 @@ func (x *rx) chain() {
 	x.check("R1.final-flush", "writer", rs.Pos(), w, "after keyChan is drained writer must flush the last partial batch (writeSend): otherwise the last (key count mod scan.key_number) RESTORE commands stay in the connection buffer and those keys never reach the target")
 	_, w = c07.MustPass(g, g.Entry(), false, closeRes)
 	x.check("R1.close", "writer/resultChan", x.fn["writer"].Decl.Pos(), w, "writer must close resultChan on every return: otherwise receiver never sets the close flag and exec never terminates")
-	w = g.Path(cfgq.Query{From: cfgq.Point{B: done}, Avoid: flush, Target: closeRes})
+	w = g.Path(cfgq.Query{From: cfgq.Point{B: done}, Avoid: flush, Target: func(n ast.Node) bool { _, d := n.(*ast.DeferStmt); return !d && closeRes(n) }})
 	if w == nil {
 		for _, p := range g.Points(closeRes) {
+			if _, deferred := p.Node().(*ast.DeferStmt); deferred {
+				continue // runs at exit; R1.final-flush covers the order
+			}
 			if w == nil {
 				w = g.Path(cfgq.Query{From: p, After: true, Target: flush})
 			}
@@ -414,19 +430,20 @@ func (x *rx) exec() {
 	}
 	x.check("R1.exec-loop", "only-on-close", loop.Pos(), w, "exec may leave its progress loop only after reading the close flag as true: leaving earlier ends the executor (and the process) while keys are still being fetched/written, so scanned keys are not copied")
 	// (b) the flag does end the loop
-	out := false
+	out, seen := false, false
 	for _, b := range g.CFG.Blocks {
 		for s := range b.Succs {
 			if !b.Live || !flagEdge(true)(b, s) {
 				continue
 			}
+			seen = true
 			t := cfgq.Point{B: b.Succs[s]}
 			if t.B == done || c07.ReachBlock2(g, t, nil, toHead, done) || g.Path(cfgq.Query{From: t, AvoidEdge: toHead, TargetExit: c07.NormalExit}) != nil {
 				out = true
 			}
 		}
 	}
-	x.c.Check("R1.exec-loop", "exit-on-close", loop.Pos(), out, "once the receiver has set the close flag exec must leave its loop: otherwise the run never terminates after the final cursor of the last database")
+	x.verdict3("R1.exec-loop", "exit-on-close", loop.Pos(), out, seen, "once the receiver has set the close flag exec must leave its loop: otherwise the run never terminates after the final cursor of the last database")
 	// the three goroutines are started before the loop, after the channels exist
 	for _, m := range []string{"fetcher", "writer", "receiver"} {
 		isGo := func(n ast.Node) bool {
@@ -937,15 +954,16 @@ func (x *rx) doFetch() {
 		w = []string{"break out of the scan loop without EndNode() being true"}
 	}
 	x.check("R5.loop", "doFetch/exit-only-on-EndNode", loop.Pos(), w, "the scan loop of a database may end successfully only when the scanner reports its final cursor: leaving earlier silently skips the remaining pages of the keyspace")
-	out := false
+	out, seen := false, false
 	for _, b := range g.CFG.Blocks {
 		for s := range b.Succs {
+			seen = seen || b.Live && ended(b, s)
 			if b.Live && ended(b, s) && (b.Succs[s] == done || g.Path(cfgq.Query{From: cfgq.Point{B: b.Succs[s]}, Avoid: isScan, TargetExit: c07.NormalExit}) != nil) {
 				out = true
 			}
 		}
 	}
-	x.c.Check("R5.loop", "doFetch/ends-on-EndNode", loop.Pos(), out, "when the scanner reports the final cursor doFetch must leave the loop: otherwise the database is scanned again from cursor 0 forever (duplicates, no termination)")
+	x.verdict3("R5.loop", "doFetch/ends-on-EndNode", loop.Pos(), out, seen || len(g.Points(isEnd)) == 0, "when the scanner reports the final cursor doFetch must leave the loop: otherwise the database is scanned again from cursor 0 forever (duplicates, no termination)")
 	w = g.Path(cfgq.Query{From: cfgq.Point{B: lbody}, Avoid: isScan, Target: isEnd})
 	x.check("R5.loop", "doFetch/scan-each-round", loop.Pos(), w, "every round must call ScanKey before asking EndNode(): EndNode() on the initial cursor 0 is true, so the database would be skipped without a single SCAN")
 
